@@ -2582,6 +2582,10 @@ func (s *Server) serveConnCounted(c net.Conn, countConcurrency bool) error {
 
 			if err != nil {
 				bw = s.writeErrorResponse(bw, ctx, serverName, err)
+			} else if bw != nil && bw.Buffered() > 0 {
+				// The peer stopped sending, but responses to earlier pipelined
+				// requests may still sit in the write buffer.
+				err = bw.Flush()
 			}
 			break
 		}
